@@ -3,7 +3,7 @@ import gen_gin as G
 import gen_stmts as S
 import gindom
 from gindom import to_driver, compare  # noqa: F401
-from props.c16 import gen_specs, render, flat_text, count_positions  # noqa: F401
+from props.c16 import gen_specs, render, flat_text, count_positions, collect_regmods  # noqa: F401
 
 ID = 'C14'
 DOMAIN = 'gin/stmts+files'
@@ -34,7 +34,8 @@ def gen_tree_case(rng):
   counter = [0]
   specs = gen_specs(rng, regs, 0, counter)
   # force conflicts: re-bind one parameter around the includes
-  binds = [sp for sp in specs if sp[0] == 'bind']
+  known_sel = {r['_selector'] for r in regs}   # not the configurable an imported module registers half-way through
+  binds = [sp for sp in specs if sp[0] == 'bind' and sp[2] in known_sel]
   missing = rng.random() < 0.15
   for i, sp in enumerate(list(specs)):
     if sp[0] == 'include' and binds:
@@ -50,17 +51,19 @@ def gen_tree_case(rng):
   files, flat = {}, []
   text, stmts, _ = render(rng, specs, regs, fault, files, flat)
   entry = rng.choice(['config', 'file', 'files_and_bindings'])
+  regmods = collect_regmods(specs)
   ops = list(regs)
   # skip_unknown is about unknown configurables and imports, never about files: a missing include fails all the same
   pskip = {'k': 'no'}
   if rng.random() < (0.6 if missing else 0.15):
     pskip = rng.choice([{'k': 'all'}, {'k': 'names', 'v': ['zz.q'], '_type': rng.choice(['list', 'tuple', 'set'])}])
   if entry == 'config':
-    ops.append({'op': 'parse', 'file': None, 'skip': pskip, 'stmts': stmts, '_text': text, '_files': files,
+    ops.append({'op': 'parse', 'file': None, 'skip': pskip, 'stmts': stmts, '_text': text, '_files': files, '_regmods': regmods,
                 '_as_list': rng.random() < 0.2 and ':' not in text})
   elif entry == 'file':
     files = dict(files, **{'top.gin': text})
-    ops.append({'op': 'parse', 'file': 'top.gin', 'skip': pskip, 'stmts': stmts, '_text': text, '_files': files})
+    ops.append({'op': 'parse', 'file': 'top.gin', 'skip': pskip, 'stmts': stmts, '_text': text, '_files': files,
+                '_regmods': regmods})
   else:
     files = dict(files, **{'top.gin': text})
     b2 = S.Builder()
@@ -86,9 +89,9 @@ def gen_tree_case(rng):
       flat[:] = []
     else:
       ops.append({'op': 'parsefiles', 'skip': skip, 'files': [['top.gin', stmts]], 'bindings': b2.stmts,
-                  'finalize': fin, '_binding_lines': lines, '_files': files})
+                  'finalize': fin, '_binding_lines': lines, '_files': files, '_regmods': regmods})
   ops += [{'op': 'config'}, {'op': 'imports'}, {'op': 'locked'}]
-  return {'dom': 'gin', 'ops': ops, '_flat_text': flat_text(flat), '_kind': 'tree', '_nregs': len(regs),
+  return {'dom': 'gin', 'ops': ops, '_flat_text': flat_text(flat), '_kind': 'tree', '_nregs': len(regs), '_regmods': regmods,
           '_missing': bool(fault and fault[2]), '_entry': entry}
 
 
@@ -137,7 +140,8 @@ def run_impl(case):
   if case['_kind'] == 'tree':
     regs = [o for o in case['ops'] if o['op'] == 'register']
     fresh = gindom.run_impl({'dom': 'gin', 'ops': regs + [
-        {'op': 'parse', 'file': None, 'skip': {'k': 'no'}, 'stmts': [], '_text': case['_flat_text'], '_files': {}},
+        {'op': 'parse', 'file': None, 'skip': {'k': 'no'}, 'stmts': [], '_text': case['_flat_text'], '_files': {},
+         '_regmods': case.get('_regmods')},
         {'op': 'config'}, {'op': 'imports'}]})
     out['fresh'] = fresh['out'][len(regs):]
   return out
